@@ -178,17 +178,18 @@ func decodeKeyCharByUnicodeRune(buf []byte, cursor int64) ([]byte, int64, error)
 		return nil, 0, errors.ErrUnexpectedEndOfJSON("escaped string", cursor)
 	}
 
+	// the cursor returned is that of the last hex digit consumed
 	r := unicodeToRune(buf[cursor : cursor+defaultOffset])
 	if utf16.IsSurrogate(r) {
-		cursor += defaultOffset
-		if cursor+surrogateOffset >= int64(len(buf)) || buf[cursor] != '\\' || buf[cursor+1] != 'u' {
-			return []byte(string(unicode.ReplacementChar)), cursor + defaultOffset - 1, nil
+		next := cursor + defaultOffset
+		if next+surrogateOffset < int64(len(buf)) && buf[next] == '\\' && buf[next+1] == 'u' {
+			r2 := unicodeToRune(buf[next+2 : next+surrogateOffset])
+			if r := utf16.DecodeRune(r, r2); r != unicode.ReplacementChar {
+				return []byte(string(r)), next + surrogateOffset - 1, nil
+			}
 		}
-		cursor += 2
-		r2 := unicodeToRune(buf[cursor : cursor+defaultOffset])
-		if r := utf16.DecodeRune(r, r2); r != unicode.ReplacementChar {
-			return []byte(string(r)), cursor + defaultOffset - 1, nil
-		}
+		// not a pair: this escape alone is the replacement character
+		return []byte(string(unicode.ReplacementChar)), cursor + defaultOffset - 1, nil
 	}
 	return []byte(string(r)), cursor + defaultOffset - 1, nil
 }
@@ -200,7 +201,8 @@ func decodeKeyCharByEscapedChar(buf []byte, cursor int64) ([]byte, int64, error)
 		// would let the matcher scan memory behind the buffer
 		return nil, 0, errors.ErrUnexpectedEndOfJSON("escaped string", cursor)
 	}
-	cursor++
+	// the cursor returned is that of the last byte of the escape sequence:
+	// the caller steps over it
 	switch c {
 	case '"':
 		return []byte{'"'}, cursor, nil
@@ -219,7 +221,7 @@ func decodeKeyCharByEscapedChar(buf []byte, cursor int64) ([]byte, int64, error)
 	case 't':
 		return []byte{'\t'}, cursor, nil
 	case 'u':
-		return decodeKeyCharByUnicodeRune(buf, cursor)
+		return decodeKeyCharByUnicodeRune(buf, cursor+1)
 	}
 	return nil, cursor, nil
 }
@@ -577,20 +579,22 @@ func decodeKeyCharByUnicodeRuneStream(s *Stream) ([]byte, error) {
 		}
 	}
 
+	// the cursor is left on the last hex digit consumed
 	r := unicodeToRune(s.buf[s.cursor : s.cursor+defaultOffset])
 	if utf16.IsSurrogate(r) {
-		s.cursor += defaultOffset
-		for s.cursor+surrogateOffset >= s.length && s.read() {
+		next := s.cursor + defaultOffset
+		for next+surrogateOffset > s.length && s.read() {
 		}
-		if s.cursor+surrogateOffset >= s.length || s.buf[s.cursor] != '\\' || s.buf[s.cursor+1] != 'u' {
-			s.cursor += defaultOffset - 1
-			return []byte(string(unicode.ReplacementChar)), nil
+		if next+surrogateOffset <= s.length && s.buf[next] == '\\' && s.buf[next+1] == 'u' {
+			r2 := unicodeToRune(s.buf[next+2 : next+surrogateOffset])
+			if r := utf16.DecodeRune(r, r2); r != unicode.ReplacementChar {
+				s.cursor = next + surrogateOffset - 1
+				return []byte(string(r)), nil
+			}
 		}
-		r2 := unicodeToRune(s.buf[s.cursor+defaultOffset+2 : s.cursor+surrogateOffset])
-		if r := utf16.DecodeRune(r, r2); r != unicode.ReplacementChar {
-			s.cursor += defaultOffset - 1
-			return []byte(string(r)), nil
-		}
+		// not a pair: this escape alone is the replacement character
+		s.cursor += defaultOffset - 1
+		return []byte(string(unicode.ReplacementChar)), nil
 	}
 	s.cursor += defaultOffset - 1
 	return []byte(string(r)), nil
@@ -606,7 +610,7 @@ RETRY:
 		}
 		goto RETRY
 	}
-	s.cursor++
+	// the cursor is left on the last byte of the escape sequence: the caller steps over it
 	switch c {
 	case '"':
 		return []byte{'"'}, nil
@@ -625,6 +629,7 @@ RETRY:
 	case 't':
 		return []byte{'\t'}, nil
 	case 'u':
+		s.cursor++
 		return decodeKeyCharByUnicodeRuneStream(s)
 	default:
 		return nil, errors.ErrUnexpectedEndOfJSON("struct field", s.totalOffset())
